@@ -45,4 +45,5 @@ def main() -> None:
                     break
     net.finish("bounded", f"all histories of length size+3 (quick) / size+4 over table sizes 1..{max_size} and alphabets of size+2 (empty prefix included), for the name, prefix and datatype rules",
                "each case = (rule, size, history); non-trivial = at least two distinct keys; enumeration is exhaustive up to the time budget")
-main()
+if __name__ == "__main__":
+    main()
